@@ -47,10 +47,11 @@ def hash_node(
         elif isinstance(child, (ast.FunctionDef, ast.AsyncFunctionDef)):
             names = [child.name]
         else:
+            # The type is part of it, 1, 1.0 and True are equal and hash the same
             things_to_hash.extend(
-                (key, value)
+                (key, type(value), value)
                 for key, value in child.__dict__.items()
-                if isinstance(value, (str, int))
+                if isinstance(value, (str, int, float, complex, bytes)) or value is Ellipsis
                 if key not in {"lineno", "end_lineno", "col_offset", "end_col_offset"}
             )
         for name in names:
